@@ -496,7 +496,7 @@ def solve_sat(
             blocking = [(-v if vals[v] == 1 else v) for v in range(1, n_vars + 1) if vals[v] != UNDEF]
             clause_idx = len(clauses) + len(learned)
             learned.append(blocking)
-            lbd_scores.append(n_vars)
+            lbd_scores.append(0)  # not implied by the other clauses: reduce_db() must never drop it
 
             unassign_to(0)
             dec_level = 0
